@@ -18,7 +18,7 @@ RULE = (
     "obtained from 40 seed queries by <=1 (thorough: 2 over a reduced alphabet) token insert/delete/replace at every character "
     "boundary; everything that compiles is evaluated (findall and finditer) on 12 documents of every JSON type; "
     "P: every string of <=4 (5) characters over a 14-character pointer alphabet as JSONPointer (4 decoder settings), resolved on "
-    "the documents, and as RelativeJSONPointer applied to 4 base pointers; J: every patch of 1 entry from the full member pools "
+    "the documents, and as RelativeJSONPointer applied to 4 base pointers; X: an extreme-token pool (5000-digit integers and exponents in every numeric position of queries, pointers, relative pointers and patch paths; 17 regular expressions that re refuses in different ways, as literals and as match/search arguments, also supplied by the document; very long and very repetitive queries and pointers); J: every patch of 1 entry from the full member pools "
     "and of 2 entries from reduced pools, constructed and applied to the documents. "
     "state = distinct input text/structure; non-trivial = input accepted (compiled / parsed / constructed)"
 )
@@ -43,13 +43,51 @@ SEEDS = [
     "$[?@.a in [1, 2]]", "$[?@.a contains 'x']", "$[?@ in $.l]", "$[?# == 'a']", "$[?@.a == _.b]", "$.a.~", "$[~]",
     "^[?@.a]", "$.a | $.b", "$.a & $.b", "a.b", "$[?@.a == undefined]", "$[?@.a != missing]", "$[?@ == 1e2]",
     "$[?@ < 1.5]", "$[?@.a == 'x' and not @.b]", "$..[?@[0] == null]",
+    "$[?match(@.a, @.b)]", "$[?search(@.a, @.b)]", "$..[?match(@.a, @.b) || search(@.b, @.a)]",
 ]
 
 DOCS = [None, True, 0, 1.5, "s", [], {}, [1, "a", [2], {"a": 1}], {"a": [1, 2], "b": {"a": "x"}, "1": None},
-        {"a": "ab", "l": [1, "a"], "b": 1}, [[["x"]], {"a": {"a": {"a": 1}}}], [0, False, "", None]]
+        {"a": "ab", "l": [1, "a"], "b": 1}, [[["x"]], {"a": {"a": {"a": 1}}}], [0, False, "", None],
+        # caller-supplied regular expressions that re refuses in different ways
+        [{"a": "ab", "b": "("}, {"a": "ab", "b": "a{99999999999999999999}"}, {"a": "ab", "b": "\\"}, {"a": "ab", "b": "(?<=a+)b"},
+         {"a": "ab", "b": "\\1"}, {"a": "ab", "b": "(?P<n>a)(?P<n>b)"}, {"a": "ab", "b": "*"}, {"a": "ab", "b": "[z-a]"}]]
 
 P_SIGMA = ["/", "~", "0", "1", "-", "+", "#", "\\", "u", "x", "a", "%", " ", "é"]
 BASES = ["", "/a", "/0/1", "/a/b/2"]
+
+
+BIGN = "9" * 5000
+REGEX_BAD = ["(", ")", "[", "*", "a{99999999999999999999}", "a{2,1}", "\\", "(?<=a+)b", "\\1", "(?P<n>a)(?P<n>b)", "[z-a]", "(?i", "a**",
+             "(" * 120 + ")" * 120, "(?P<1>a)", "\\g<x>", "(?(1)a|b)"]
+
+
+def extreme_queries():
+    out = []
+    for n in (BIGN, "-" + BIGN, "1e" + BIGN[:400], BIGN + ".5", "0." + BIGN, "1e-" + BIGN[:400], "1E+" + BIGN[:30]):
+        out += ["$[%s]" % n, "$[%s:]" % n, "$[:%s]" % n, "$[::%s]" % n, "$[0,%s]" % n, "$[?@ == %s]" % n, "$[?@ < %s]" % n,
+                "$[?@[%s]]" % n, "$[?length(@) == %s]" % n, "$[?@ in [%s]]" % n, "$..[%s]" % n]
+    for rx in REGEX_BAD:
+        out += ["$[?@.a =~ /%s/]" % rx, "$[?@ =~ /%s/i]" % rx, "$[?match(@.a, '%s')]" % rx.replace("'", ""), "$[?search(@, \"%s\")]" % rx.replace('"', "")]
+    # (chains are kept below a hundred links: deeper structures are outside the claim)
+    out += ["$" + ".a" * 90, "$" + "[0]" * 90, "$[?" + "!" * 90 + "@]", "$[?@" + " && @" * 90 + "]", "$[?@" + " || @ && !@" * 45 + "]",
+            "$['" + "a" * 100000 + "']",
+            "$[" + ",".join(["0"] * 5000) + "]", "$[?@ == '" + "\\u0041" * 5000 + "']", "$[?@ in [" + ",".join(["1"] * 5000) + "]]"]
+    return out
+
+
+def extreme_pointers():
+    out = []
+    for n in (BIGN, "-" + BIGN, "0" + BIGN, "+" + BIGN):
+        out += ["/" + n, "/a/" + n, "/" + n + "/a", "/#" + n, "/~" + n]
+    out += ["/a" * 20000, "/" + "~0" * 20000, "/" + "\\u0041" * 5000, "/%41" * 3000]
+    return out
+
+
+def extreme_relative():
+    out = []
+    for n in (BIGN, "0" + BIGN):
+        out += [n, n + "#", n + "/a", "0+" + n, "0-" + n, "1+" + n + "#", "0+" + n + "/a", n + "+" + n]
+    return out
 
 
 def selftest():
@@ -88,6 +126,8 @@ def plan(tier, seed):
                 shards.append(("P", 5, a, b))
     for k in range(8):
         shards.append(("J", k, 8))
+    for k in range(8):
+        shards.append(("X", k, 8))
     return shards
 
 
@@ -141,6 +181,18 @@ def run_shard(shard, acc):
                 _pointer(P_SIGMA[a], acc)
             if a == 0 and b == 0:
                 _pointer("", acc)
+    elif kind == "X":
+        _, k, nk = shard
+        for i, q in enumerate(extreme_queries()):
+            if i % nk == k:
+                _query("X", q, acc)
+        for i, t in enumerate(extreme_pointers() + extreme_relative()):
+            if i % nk == k:
+                _pointer(t, acc)
+        for i, t in enumerate(extreme_pointers()[::3]):
+            if i % nk == k:
+                _patch([{"op": "add", "path": t, "value": 1}], acc)
+                _patch([{"op": "move", "from": t, "path": "/a"}], acc)
     elif kind == "J":
         _, k, nk = shard
         singles = list(patch_entries(False))
@@ -217,7 +269,7 @@ def _query(sub, text, acc, record=True):
         case = {"text": text}
         if bad[2] is not None:
             case["doc"] = DOCS[bad[2]]
-        acc.violation(sub if sub != "E" else "Q", bad[0], case, expected="value or a JSONPathError", observed=bad[1])
+        acc.violation("Q" if sub in ("E", "X") else sub, bad[0], case, expected="value or a JSONPathError", observed=bad[1])
 
 
 def _pointer(text, acc, record=True):
@@ -366,7 +418,7 @@ def _patch(entries, acc, record=True):
         acc.violation("J", bad[0], {"patch": jsonable(entries)}, expected="result or a JSONPatchError", observed=bad[1])
 
 
-REQUIRE = {"Q.compiled": 100, "Q.rejected": 1000, "E.compiled": 100, "E.rejected": 100, "P.accepted": 100, "P.rejected": 100,
+REQUIRE = {"X.compiled": 5, "X.rejected": 20, "Q.compiled": 100, "Q.rejected": 1000, "E.compiled": 100, "E.rejected": 100, "P.accepted": 100, "P.rejected": 100,
            "J.accepted": 50, "J.rejected": 50}
 
 
